@@ -123,6 +123,14 @@ def cached(key, builder):
             builder(tmp)
             open(os.path.join(tmp, ".complete"), "w").close()
             os.rename(tmp, final)
+            # disk hygiene: older entries of the same kind / tier / seed belong to other source states
+            parts = key.split("-")
+            if len(parts) >= 5:
+                for e in os.listdir(CACHE):
+                    q = e.split("-")
+                    if e != key and len(q) == len(parts) and q[0] == parts[0] and q[-2:] == parts[-2:] \
+                            and os.path.exists(os.path.join(CACHE, e, ".complete")):
+                        rmtree(os.path.join(CACHE, e))
         except BaseException:
             rmtree(tmp)
             raise
